@@ -173,7 +173,7 @@ pub fn run(run: &mut Run) -> Finish {
     // slice 1: small layouts, every subset of flags
     let configs: Vec<Layouts> = match tier {
         Tier::Quick => vec![Layouts { lines: vec![0, 1, 2], maxc: 4 }, Layouts { lines: vec![0, 2, 5], maxc: 3 }],
-        Tier::Thorough => vec![Layouts { lines: vec![0, 1, 2], maxc: 5 }, Layouts { lines: vec![0, 2, 5], maxc: 4 }, Layouts { lines: vec![0, 1, 2, 3], maxc: 3 }],
+        Tier::Thorough => vec![Layouts { lines: vec![0, 1, 2], maxc: 6 }, Layouts { lines: vec![0, 2, 5], maxc: 5 }, Layouts { lines: vec![0, 1, 2, 3], maxc: 4 }],
     };
     for (ci, cfg) in configs.iter().enumerate() {
         let nl = cfg.lines.len();
